@@ -91,6 +91,11 @@ func kindName(n string) string {
 
 func q(s string) string { return strconv.Quote(s) }
 
+// lit is a string literal of the schema language: the text between the quotes is taken as it is (the
+// language defines no escapes; a literal cannot contain a quote, a newline or - for this printer - a
+// backslash)
+func lit(s string) string { return "\"" + s + "\"" }
+
 func (b BaseT) dump(sb *strings.Builder) {
 	switch b.Kind {
 	case BName:
@@ -245,14 +250,14 @@ func (f *File) Tokens() []string {
 			if im.Alias != "" {
 				add(im.Alias)
 			}
-			add(q(im.ID))
+			add(lit(im.ID))
 		}
 		add(")")
 	}
 	if len(f.Options) > 0 {
 		add("options", "(")
 		for _, o := range f.Options {
-			add(o.Name, "=", q(o.Value))
+			add(o.Name, "=", lit(o.Value))
 		}
 		add(")")
 	}
